@@ -5,3 +5,4 @@ import GwfModel.Shape
 import GwfModel.Sched
 import GwfModel.Graph
 import GwfModel.Project
+import GwfModel.Spec
